@@ -1,6 +1,10 @@
 """C03 — treap = sequence under split/merge/insert/remove/first/last/collect/size with lazy modifications
 and per-subtree aggregates, for every assignment of priorities (rlib/treap).  remove_at is observed through the COMPLETE
-item it returns (every field), and through "move" = remove_at followed by insert_at of that very item object."""
+item it returns (every field), and through "move" = remove_at followed by insert_at of that very item object, possibly
+modified by the caller in between (move-and-update): items may enter a treap with a pending tag (from_item, insert_at).
+The real insert_at is steered through every rank of the new node (hybrid cases: injected priorities chosen relative to
+the predicted draw of the natively created node); boundary priorities (0, 2^32-1) and empty operands; positions up to
+usize::MAX; Treap wrappers and TreapNode building blocks."""
 ID = "C03"
 CRATE = "c03"
 COQ_DIR = "C03"
@@ -12,7 +16,7 @@ AUDIT_IMPORT = ("From Coq Require Import ZArith List Bool.\nImport ListNotations
 EXPLAIN = "explain"
 CASE_TYPE = "case"
 AXIOM_ALLOW = []
-SHARD = 1500
+SHARD = 1200
 SEARCH_MAX = 3000      # size of the enlarged search after a model-only mismatch
 THEOREMS = [
     ('c03_merge_rep',
@@ -22,7 +26,7 @@ THEOREMS = [
     ('c03_split_by_rep',
      'forall (T M V A : Type) (update : T -> option T -> option T -> T) (push : T -> option T -> option T -> T * option T * option T) (size : T -> Z) (modify : M -> T -> T) (elem : T -> V) (agg : T -> A) (act : M -> V -> V) (aggf : list V -> A) (Pending : T -> list M -> Prop), lawful update push size modify elem agg act aggf Pending -> forall (q : V -> bool) (t : tree) (xs : list V) (a b : tree), Rep size elem agg act aggf Pending t xs -> monotone_on q xs = true -> split_by update push (fun x => q (elem x)) t None = (a, b) -> Rep size elem agg act aggf Pending a (take_while q xs) /\\ Rep size elem agg act aggf Pending b (drop_while q xs)'),
     ('c03_insert_at',
-     'forall (T M V A : Type) (update : T -> option T -> option T -> T) (push : T -> option T -> option T -> T * option T * option T) (size : T -> Z) (modify : M -> T -> T) (elem : T -> V) (agg : T -> A) (act : M -> V -> V) (aggf : list V -> A) (Pending : T -> list M -> Prop), lawful update push size modify elem agg act aggf Pending -> forall (t : tree) (k : Z) (x : T) (p : Z) (xs : list V), Rep size elem agg act aggf Pending t xs -> Fresh size elem agg aggf Pending x -> Rep size elem agg act aggf Pending (insert_at update push size t k x p) (firstn (Z.to_nat k) xs ++ elem x :: skipn (Z.to_nat k) xs)'),
+     'forall (T M V A : Type) (update : T -> option T -> option T -> T) (push : T -> option T -> option T -> T * option T * option T) (size : T -> Z) (modify : M -> T -> T) (elem : T -> V) (agg : T -> A) (act : M -> V -> V) (aggf : list V -> A) (Pending : T -> list M -> Prop), lawful update push size modify elem agg act aggf Pending -> forall (t : tree) (k : Z) (x : T) (p : Z) (xs : list V), Rep size elem agg act aggf Pending t xs -> Detached size elem agg aggf Pending x -> Rep size elem agg act aggf Pending (insert_at update push size t k x p) (firstn (Z.to_nat k) xs ++ elem x :: skipn (Z.to_nat k) xs)'),
     ('c03_remove_at',
      "forall (T M V A : Type) (update : T -> option T -> option T -> T) (push : T -> option T -> option T -> T * option T * option T) (size : T -> Z) (modify : M -> T -> T) (elem : T -> V) (agg : T -> A) (act : M -> V -> V) (aggf : list V -> A) (Pending : T -> list M -> Prop), lawful update push size modify elem agg act aggf Pending -> forall (t : tree) (k : Z) (xs : list V) (t' : tree) (res : option T), Rep size elem agg act aggf Pending t xs -> remove_at update push size t k = (t', res) -> Rep size elem agg act aggf Pending t' (firstn (Z.to_nat k) xs ++ skipn (S (Z.to_nat k)) xs) /\\ option_map elem res = nth_error xs (Z.to_nat k) /\\ (forall x : T, res = Some x -> Fresh size elem agg aggf Pending x)"),
     ('c03_first_last_collect_size',
@@ -30,7 +34,7 @@ THEOREMS = [
     ('c03_modify_root',
      'forall (T M V A : Type) (update : T -> option T -> option T -> T) (push : T -> option T -> option T -> T * option T * option T) (size : T -> Z) (modify : M -> T -> T) (elem : T -> V) (agg : T -> A) (act : M -> V -> V) (aggf : list V -> A) (Pending : T -> list M -> Prop), lawful update push size modify elem agg act aggf Pending -> forall (m : M) (t : tree) (xs : list V), Rep size elem agg act aggf Pending t xs -> Rep size elem agg act aggf Pending (modify_root modify m t) (map (act m) xs)'),
     ('c03_history',
-     'forall (T M V A : Type) (update : T -> option T -> option T -> T) (push : T -> option T -> option T -> T * option T * option T) (size : T -> Z) (modify : M -> T -> T) (elem : T -> V) (agg : T -> A) (act : M -> V -> V) (aggf : list V -> A) (Pending : T -> list M -> Prop), lawful update push size modify elem agg act aggf Pending -> forall (ps : list Z) (ops : list op) (sst : list (list V)) (outs : list output), Forall (op_fresh size elem agg aggf Pending) ops -> srun elem act aggf [] ops = Some (sst, outs) -> map (out_elem elem) (run_outputs update push size modify elem agg ps ops) = outs /\\ Forall (out_fresh size elem agg aggf Pending) (run_outputs update push size modify elem agg ps ops) /\\ Forall2 (Rep size elem agg act aggf Pending) (run_final update push size modify elem agg ps ops) sst'),
+     'forall (T M V A : Type) (update : T -> option T -> option T -> T) (push : T -> option T -> option T -> T * option T * option T) (size : T -> Z) (modify : M -> T -> T) (elem : T -> V) (agg : T -> A) (act : M -> V -> V) (aggf : list V -> A) (Pending : T -> list M -> Prop), lawful update push size modify elem agg act aggf Pending -> forall (ps : list Z) (ops : list op) (sst : list (list V)) (outs : list output), Forall (op_detached size elem agg aggf Pending) ops -> srun elem act aggf [] ops = Some (sst, outs) -> map (out_elem elem) (run_outputs update push size modify elem agg ps ops) = outs /\\ Forall (out_fresh size elem agg aggf Pending) (run_outputs update push size modify elem agg ps ops) /\\ Forall2 (Rep size elem agg act aggf Pending) (run_final update push size modify elem agg ps ops) sst'),
     ('c03_isz_lawful',
      'lawful isz_update isz_push isize isz_modify ix ism Z.add zsum isz_pending'),
     ('c03_model_check_spec_check',
@@ -40,36 +44,63 @@ THEOREMS = [
     ('c03_ihash_lawful',
      'lawful ihs_update ihs_push hsz ihs_modify hx ihs_agg Z.add hashagg ihs_pending'),
 ]
-RULE = ("every priority assignment {0..n-1}^n (ties included) for n <= 4 (quick) / 5 (thorough) on a build / root-modify / split / aggregate / modify / merge / observe history; "
+RULE = ("every priority assignment {0..n-1}^n (ties included) for n <= 4 (quick) / 5 (thorough) on a build / root-modify / split / aggregate / modify both parts (a tag pending on BOTH roots at the merge) / merge / observe history; "
         "the same assignments on a build / root-modify / MOVE (remove_at(k), then insert_at(k2, the returned item object) on the same treap: every pair (k, k2) for "
         "n <= 3 (quick) / 4 (thorough), so the removed node is every inner node with one or two children, the root, every leaf) / size / aggregate / collect / split_at / "
         "sizes and aggregates of both parts / move across the two treaps / merge / split_at / observe history, over all three item kinds, and with the treap's own "
         "priorities and the real insert_at for n <= 5 (quick) / 8 (thorough); every remove_at (alone or in a move) shows the COMPLETE returned item "
-        "(element, aggregate, size, pending tag, extra fields); plus random multi-treap op histories (1-45 ops, up to 6 live treaps, up to ~35 elements) over three item kinds (lazy add + sum; "
+        "(element, aggregate, size, pending tag, extra fields); "
+        "ITEMS THAT ENTER A TREAP WITH A PENDING TAG: every other move is a move-and-update (remove_at, the caller modifies the returned item - one or two modifications, "
+        "assignments and additions in both orders for the assign-or-add item -, insert_at of that object), every other exhaustive build ends with an insert_at of a "
+        "fresh item that was modified first, and a family of its own (hybrid-tagged) sends such an item through the REAL insert_at / from_item for every rank of the new "
+        "node: the n <= 3 (quick) / 4 (thorough) nodes already there get injected priorities d + 2(l - r) + 1 resp. d + (l - r) for every level assignment l in {0..n-1}^n and "
+        "every rank r, where d is the generator's own draw that the new node keeps (predicted by the plugin: every node creation of a line draws exactly once), so the new node "
+        "is above the root, between any two nodes of its search path, below everything, or TIED with any of them; three ways in (insert_at of a modified fresh item; "
+        "remove_at from another treap + modify + insert_at; split_at + from_item(modified item) + merge + merge), a modification pending on the root meanwhile; "
+        "BOUNDARY PRIORITIES: every assignment over {0, 2^32-2, 2^32-1} for n <= 3 (quick) / 5 (thorough) on the build/split/merge history and n <= 3 / 4 on the move history; "
+        "roots of priority 2^32-1, 2^32-2, 0, 1, 2^31-1, 2^31 merged with an EMPTY operand on either side, split at 0 / len and merged back, emptied by remove_at and merged, "
+        "grown from an empty treap; a random priority mode drawing from those six values; "
+        "POSITIONS 2^32-1, 2^32, 2^32+1, 2^64-2, 2^64-1 in split_at / insert_at / remove_at / move on empty and non-empty treaps (both build profiles); "
+        "LONG PATHS: 70 / 130 (quick) and 300 (thorough) elements appended with increasing / decreasing / equal / native priorities (depth = n), then root modify, splits at 1 / mid / n-1, "
+        "move-and-update, observations; "
+        "plus random multi-treap op histories (1-45 ops, up to 6 live treaps, up to ~35 elements) over three item kinds (lazy add + sum; "
         "assign-or-add + sum, non-commuting modifications; lazy add + positional hash mod 65521, an ORDER-SENSITIVE "
         "aggregate that exposes exchanged children: its histories read the root aggregate after about half of the structural "
-        "operations, of every split-out middle and of every final treap, start from a pre-built treap of up to 14 elements, "
+        "operations and of every split-out middle, start from a pre-built treap of up to 14 elements, "
         "and have their own exhaustive family over every priority assignment: whole / split halves / middle range / "
-        "after remove / after insert aggregates); priorities injected through the public field: random 32-bit, "
-        "tiny range (ties), all equal, increasing, decreasing, or the generator's own draws (real insert_at, stream predicted "
-        "by the plugin); histories are biased to the split-modify-merge pattern (range modify / range aggregate), sorted-set "
+        "after remove / after insert aggregates); EVERY history ends with the root aggregate and collect() of every live treap; about a quarter of the items handed to "
+        "from_item / insert_at were modified by the caller first, a third of the moves are move-and-update; priorities injected through the public field: random 32-bit, "
+        "tiny range (ties), all equal, increasing, decreasing, the six boundary values, the generator's own draws (real insert_at, stream predicted "
+        "by the plugin), or HYBRID (a third of the nodes keep the generator's draw and go through the real insert_at, the others get a predicted draw -1 / +0 / +1 or a random value); "
+        "a quarter of the histories (and every fifth exhaustive one, half of the empty-operand ones) run merge / split_at / split_by / collect through the public building blocks "
+        "TreapNode::{merge, split_at, split_by, collect_into} on `t.root` instead of the Treap wrappers (collect_into appends to a vector that already holds an item); "
+        "empty treaps come from Treap::new or Treap::default; every size / collect / root-aggregate observation also compares is_empty() with what it sees; "
+        "histories are biased to the split-modify-merge pattern (range modify / range aggregate), sorted-set "
         "insertion through split_by, moves within one treap and between two live treaps (about 6% of the operations), boundary positions 0/len/len+1; non-trivial = a root modification on a treap with >= 2 "
-        "elements is followed by a split/merge/insert/remove and then by an observation")
+        "elements is followed by a split/merge/insert/remove and then by an observation, or an item with a pending tag enters a non-empty treap and an observation follows")
 TRUSTED = ["executor harness/crates/c03 (drives rlib_treap::{Treap,TreapNode} through the public API; overwrites the public "
            "priority field of new nodes; prints outputs, raw shapes and final collects; prints every field of an item returned by remove_at before "
-           "handing that same object to insert_at in a move)",
-           "checks/c03.py (history generator, Coq term printer, prediction of the thread-local generator's draws for native cases)"]
+           "modifying it (move-and-update) and handing that same object to insert_at in a move; puts the process-wide priority generator back to its seed at the "
+           "start of every line through the crate's hook verif_reset_priorities (cargo feature `verif`); its is_empty / collect_into consistency checks print a token "
+           "that no model output equals)",
+           "checks/c03.py (history generator, Coq term printer, prediction of the draws of the process-wide priority generator - one draw per node creation of a line - "
+           "for native cases and for the natively drawn nodes of hybrid cases)"]
 ASSUMPTIONS = ["items are the harness items (i64, values small enough never to overflow; the positional-hash item of C03 kind 2 reduces mod 65521, every product < 2^40) — the theorems are generic over any lawful item",
-               "Box ownership / Option<Box<..>> modelled as a functional tree; usize positions as Z (no operation can overflow)",
+               "Box ownership / Option<Box<..>> modelled as a functional tree; usize positions as Z (no operation can overflow; positions up to 2^64-1 are run)",
                "with injected priorities insert_at is replayed through the public API as split_at + from_item + merge + merge (its body); "
-               "the real insert_at runs in the native-priority cases"]
+               "the real insert_at runs in the native-priority cases and for the natively drawn nodes of the hybrid cases (every rank pattern for n <= 3/4, ties included)",
+               "items handed to from_item / insert_at are Detached (one element, aggregate of that element, size 1, ANY pending tag): freshly made items and items returned by "
+               "remove_at, modified by the caller any number of times (proved for every concrete history: conv_detached)"]
 
 MASK = (1 << 64) - 1
 LCG_A, LCG_C = 6364136223846793005, 1442695040888963407
 
 
 def lcg_prios(n, seed=42):
-    """draws of rlib_treap's thread-local generator: state = state*A + C; raw = state ^ (state >> 32); priority = low 32 bits"""
+    """draws of rlib_treap's process-wide priority generator (one `static RNG: Mutex<Rng>`, put back to its seed by the
+    executor at the start of every line through the hook `verif_reset_priorities`): state = state*A + C;
+    raw = state ^ (state >> 32); priority = low 32 bits.  EVERY node creation of a line draws once (also when the
+    public priority field is overwritten afterwards), so the j-th creation of a line gets lcg_prios(..)[j]."""
     out, s = [], seed
     for _ in range(n):
         s = (s * LCG_A + LCG_C) & MASK
@@ -78,13 +109,30 @@ def lcg_prios(n, seed=42):
 
 
 # ----------------------------------------------------------------------------- python mirror of the list spec
-def py_step(L, op):
+U32MAX = (1 << 32) - 1
+MODS_AT = {"F": 3, "I": 5, "V": 6}      # position of the optional list of caller-side modifications in an op
+
+
+def op_mods(op):
+    """modifications [["a", c] | ["s", c], ...] that the caller applies to the item before from_item / insert_at gets it"""
+    at = MODS_AT.get(op[0])
+    return op[at] if (at is not None and len(op) > at) else []
+
+
+def apply_mods(v, ms, kind=1):
+    """kind 1: add / set; kinds 0 and 2 treat every modification as an addition (as the harness items and md0 do)"""
+    for t, c in ms:
+        v = c if (t == "s" and kind == 1) else v + c
+    return v
+
+
+def py_step(L, op, kind=1):
     """mirror of Model.sstep on python lists (used only to generate valid histories)"""
     k = op[0]
-    if k == "N":
+    if k in ("N", "D"):
         L.append([])
     elif k == "F":
-        L.append([op[1]])
+        L.append([apply_mods(op[1], op_mods(op), kind)])
     elif k == "M":
         i, j = op[1], op[2]
         if i != j and i < len(L) and j < len(L):
@@ -107,7 +155,7 @@ def py_step(L, op):
     elif k == "I":
         i = op[1]
         if i < len(L):
-            L[i].insert(min(op[2], len(L[i])), op[3])
+            L[i].insert(min(op[2], len(L[i])), apply_mods(op[3], op_mods(op), kind))
     elif k == "R":
         i = op[1]
         if i < len(L) and op[2] < len(L[i]):
@@ -116,7 +164,7 @@ def py_step(L, op):
         i, j = op[1], op[3]
         if i < len(L) and j < len(L) and op[2] < len(L[i]):
             v = L[i].pop(op[2])
-            L[j].insert(min(op[4], len(L[j])), v)
+            L[j].insert(min(op[4], len(L[j])), apply_mods(v, op_mods(op), kind))
     elif k == "U":
         i = op[1]
         if i < len(L):
@@ -137,18 +185,46 @@ def monotone(xs, c):
     return True
 
 
-PRIO_MODES = ["random", "random", "tiny", "equal", "inc", "dec", "native", "native"]
+PRIO_MODES = ["random", "random", "tiny", "equal", "inc", "dec", "native", "native", "edge", "hybrid"]
+EDGE_PRIOS = [0, 1, (1 << 31) - 1, 1 << 31, U32MAX - 1, U32MAX]      # the public field accepts every u32
+
+
+def gen_mods(rng, kind, always=False):
+    """modifications that the caller applies to an item it holds before from_item / insert_at gets it (about one item in
+    four; two stacked modifications in a third of those; kind 1 mixes assignments and additions, which do not commute)"""
+    if not always and not rng.chance(1, 4):
+        return []
+    out = []
+    for _ in range(2 if rng.chance(1, 3) else 1):
+        if kind == 1 and rng.chance(2, 5):
+            out.append(["s", rng.range(-30, 30)])
+        else:
+            out.append(["a", rng.range(-20, 20)])
+    return out
 
 
 def gen_history(rng, nops, kind, mode, maxel=35, prebuild=0):
-    """kinds 0/1: unchanged stream of choices.  kind 2 (positional hash, order-sensitive aggregate): the same op mix,
-    but a root aggregate is read after about half of the structural operations and of every final treap, and the
-    history may start from a pre-built treap of `prebuild` elements (subtree roots with two children from the start)."""
+    """kinds 0/1/2: random multi-treap history.  kind 2 (positional hash, order-sensitive aggregate): a root aggregate is
+    read after about half of the structural operations, and the history may start from a pre-built treap of `prebuild`
+    elements (subtree roots with two children from the start).  Every history ends with the root aggregate and the
+    collect() of every live treap.  About a quarter of the items handed to from_item / insert_at (fresh ones and the ones
+    that remove_at returned) were modified by the caller first.  Mode `edge`: priorities from the boundary values of u32;
+    mode `hybrid`: about a third of the nodes keep the generator's own draw (their insert_at is the REAL one), the others
+    get injected priorities equal or next to a predicted draw (ties and near-ties with the natively drawn nodes) or
+    random.  A quarter of the histories run merge / split_at / split_by / collect through the TreapNode building blocks."""
     L, ops = [], []
-    counter = [0]
+    created = [0]                     # node creations so far = index of the next draw of the generator
+    draws = lcg_prios(nops + prebuild + 64)
 
-    def prio():
-        counter[0] += 1
+    def draw(j):
+        while j >= len(draws):
+            draws.extend(lcg_prios(2 * len(draws))[len(draws):])
+        return draws[j]
+
+    def prio(creates=True):
+        j = created[0]
+        if creates:
+            created[0] += 1
         if mode == "random":
             return rng.below(1 << 32)
         if mode == "tiny":
@@ -156,14 +232,25 @@ def gen_history(rng, nops, kind, mode, maxel=35, prebuild=0):
         if mode == "equal":
             return 7
         if mode == "inc":
-            return 10 * counter[0]
+            return 10 * (j + 1)
         if mode == "dec":
-            return 1000000 - 10 * counter[0]
+            return 1000000 - 10 * (j + 1)
+        if mode == "edge":
+            return rng.choice(EDGE_PRIOS)
+        if mode == "hybrid":
+            r = rng.below(6)
+            if r < 2:
+                return "n"
+            if r < 5:
+                # equal / next to the draw of a creation nearby (possibly this one, possibly a later native one)
+                d = draw(max(0, j + rng.range(-3, 3)))
+                return min(U32MAX, max(0, d + rng.choice([-1, 0, 0, 1])))
+            return rng.below(1 << 32)
         return 0   # native: recomputed from the LCG stream
 
     def emit(op):
         ops.append(op)
-        py_step(L, op)
+        py_step(L, op, kind)
         if kind == 2 and op[0] in "MABIRUV" and L and rng.chance(1, 2):
             # results of merge/split are at the end of the list; insert/remove/modify/move act in place
             if op[0] == "V":
@@ -196,6 +283,10 @@ def gen_history(rng, nops, kind, mode, maxel=35, prebuild=0):
     def total():
         return sum(len(x) for x in L)
 
+    def with_mods(op):
+        ms = gen_mods(rng, kind)
+        return op + [ms] if ms else op
+
     if prebuild:
         emit(["F", rng.range(-50, 50), prio()])
         for _ in range(prebuild - 1):
@@ -207,14 +298,14 @@ def gen_history(rng, nops, kind, mode, maxel=35, prebuild=0):
         r = rng.below(100)
         if n == 0 or (r < 4 and n < 6):
             if rng.chance(1, 4):
-                emit(["N"])
+                emit([rng.choice(["N", "D"])])
             else:
-                emit(["F", rng.range(-50, 50), prio()])
+                emit(with_mods(["F", rng.range(-50, 50), prio()]))
             continue
         i = rng.below(n)
         xs = L[i]
         if r < 12 and n < 6 and total() < maxel:
-            emit(["F", rng.range(-50, 50), prio()])
+            emit(with_mods(["F", rng.range(-50, 50), prio()]))
         elif r < 22 and n >= 2:
             j = rng.below(n - 1)
             if j >= i:
@@ -223,22 +314,27 @@ def gen_history(rng, nops, kind, mode, maxel=35, prebuild=0):
         elif r < 30 and n < 6:
             emit(["A", i, pos(len(xs))])
         elif r < 45 and total() < maxel:
-            emit(["I", i, pos(len(xs)), rng.range(-50, 50), prio()])
+            emit(with_mods(["I", i, pos(len(xs)), rng.range(-50, 50), prio()]))
         elif r < 50:
             if xs and rng.chance(15, 16):
                 emit(["R", i, rng.below(len(xs))])
             else:
                 emit(["R", i, len(xs) + rng.below(2)])
         elif r < 57:
-            # move: remove_at on treap i, insert_at of the returned item object on treap j (the same one half of the time)
+            # move: remove_at on treap i, insert_at of the returned item object on treap j (the same one half of the time);
+            # a third of the moves modify the item in between (move-and-update)
             j = i if (n == 1 or rng.chance(1, 2)) else rng.below(n)
             if xs and rng.chance(15, 16):
                 k = rng.below(len(xs))
                 tl = len(L[j]) - (1 if j == i else 0)
+                ok = True
             else:
                 k = len(xs) + rng.below(2)
                 tl = len(L[j])
-            emit(["V", i, k, j, pos(tl), prio()])
+                ok = False            # remove_at panics: no node is created
+            op = ["V", i, k, j, pos(tl), prio(ok)]
+            ms = gen_mods(rng, kind, always=True) if rng.chance(1, 3) else []
+            emit(op + [ms] if ms else op)
             if rng.chance(1, 2):
                 emit([rng.choice(["S", "S", "G", "C"]), j])
         elif r < 65:
@@ -291,37 +387,43 @@ def gen_history(rng, nops, kind, mode, maxel=35, prebuild=0):
             emit(["S", i])
         else:
             emit(["G", i])
-    # final observations of everything
+    # final observations of everything: the last operations of a history are observed too
     for i in range(len(L)):
-        if kind == 2:
-            ops.append(["G", i])
-            ops.append(["C", i])
-            continue
-        k = rng.below(4)
-        if k == 0:
-            ops.append(["C", i])
-        elif k == 1:
-            ops.append(["G", i])
-    return {"kind": kind, "native": mode == "native", "mode": mode, "ops": ops}
+        ops.append(["G", i])
+        ops.append(["C", i])
+    c = {"kind": kind, "native": mode == "native", "mode": mode, "ops": ops}
+    if rng.chance(1, 4):
+        c["nodeapi"] = True
+    return c
 
 
-def exhaustive_small(nmax):
-    """every priority assignment {0..n-1}^n (ties included) for n <= nmax: build by appends, modify the root,
-    split at a cut, read both aggregates, modify one side, merge back, observe"""
+def exhaustive_small(nmax, alphabet=None, mode="exhaustive"):
+    """every priority assignment {0..n-1}^n (ties included; or alphabet^n for a given list of priority values) for
+    n <= nmax: build by appends (every other case: the last appended item was modified by the caller first), modify the
+    root, split at a cut, read both aggregates, modify both sides (two out of three cases: a tag is pending on BOTH roots
+    when they are merged), merge back, observe"""
     import itertools
     cases, idx = [], 0
     for n in range(1, nmax + 1):
-        for f in itertools.product(range(n), repeat=n):
+        for f in itertools.product(alphabet if alphabet is not None else range(n), repeat=n):
             idx += 1
             kind = idx % 2
             ops = [["F", 0, f[0]]]
             for i in range(1, n):
                 ops.append(["I", 0, i, 10 * i, f[i]])
+            if idx % 4 < 2:
+                ops[-1] = ops[-1] + [[["s", 5], ["a", 1]] if (kind == 1 and idx % 8 < 4) else [["a", 4]]]
             ops.append(["U", 0, "s", 7, kind] if kind == 1 else ["U", 0, "a", 7, kind])
             ops.append(["U", 0, "a", 1, kind])
             k = idx % (n + 1)
-            ops += [["A", 0, k], ["G", 0], ["G", 1], ["U", 1, "a", 3, kind], ["M", 0, 1], ["C", 0], ["f", 0], ["l", 0], ["S", 0]]
-            cases.append({"kind": kind, "native": False, "mode": "exhaustive", "ops": ops})
+            ops += [["A", 0, k], ["G", 0], ["G", 1], ["U", 1, "a", 3, kind]]
+            if idx % 3:
+                ops.append(["U", 0, "a", -2, kind])
+            ops += [["M", 0, 1], ["C", 0], ["f", 0], ["l", 0], ["S", 0], ["G", 0]]
+            c = {"kind": kind, "native": False, "mode": mode, "ops": ops}
+            if idx % 5 == 0:
+                c["nodeapi"] = True
+            cases.append(c)
     return cases
 
 
@@ -332,7 +434,8 @@ def exhaustive_hash(nmax):
     """kind 2 (order-sensitive aggregate): every priority assignment {0..n-1}^n (ties included) for n <= nmax.
     Build by appends (pairwise different values), then read the root aggregate of: the whole treap, the whole treap
     under a pending modification, both halves of a split, the merge of the halves after one was modified, a split-out
-    middle range (modified) and the re-merged whole, the treap after a remove_at and after an insert_at."""
+    middle range (modified) and the re-merged whole, the treap after a remove_at and after an insert_at (every other
+    case: of an item that the caller modified first)."""
     import itertools
     cases, idx = [], 0
     for n in range(1, nmax + 1):
@@ -349,49 +452,67 @@ def exhaustive_hash(nmax):
             r_ = l_ + (idx // 3) % (n - l_)
             ops += [["A", 0, r_ + 1], ["A", 0, l_], ["G", 2], ["U", 2, "a", -4, 2], ["G", 2],
                     ["M", 1, 2], ["G", 1], ["M", 1, 0], ["G", 0], ["C", 0]]
-            ops += [["R", 0, idx % n], ["G", 0],
-                    ["I", 0, (idx // 5) % (n + 1), HASH_VALUES[5], f[idx % n]], ["G", 0], ["f", 0], ["l", 0], ["C", 0]]
-            cases.append({"kind": 2, "native": False, "mode": "exhaustive", "ops": ops})
+            ins = ["I", 0, (idx // 5) % (n + 1), HASH_VALUES[5], f[idx % n]]
+            if idx % 2:
+                ins.append([["a", 11]])
+            ops += [["R", 0, idx % n], ["G", 0], ins, ["G", 0], ["f", 0], ["l", 0], ["C", 0]]
+            c = {"kind": 2, "native": False, "mode": "exhaustive", "ops": ops}
+            if idx % 5 == 0:
+                c["nodeapi"] = True
+            cases.append(c)
     return cases
 
 
 MOVE_VALUES = [10 * (i + 1) for i in range(12)]
 
 
-def move_ops(n, kind, idx, k, k2, prios, pnew, pnew2):
+def move_mods(kind, idx):
+    """every other move modifies the item between remove_at and insert_at (move-and-update)"""
+    if idx % 2:
+        return []
+    if kind == 1:
+        return [[["s", 4]], [["a", 6]], [["s", 4], ["a", 6]], [["a", 6], ["s", 4]]][(idx // 2) % 4]
+    return [[["a", 6]], [["a", 6], ["a", -9]]][(idx // 2) % 2]
+
+
+def move_ops(n, kind, idx, k, k2, prios, pnew, pnew2, ms1=None, ms2=None):
     """build [10, 20, ...] by appends with the given priorities (`prios[i]`; ignored in native cases), attach a
     modification to the root (it is pending on the inner nodes when remove_at descends), move position k to position k2
-    with the returned item object, observe size / root aggregate / collect; split, observe both sides; move the first
-    element of the left part to the end of the right part (across two treaps), observe; merge back, split again, observe"""
+    with the returned item object (modified by `ms1` in between, if given), observe size / root aggregate / collect;
+    split, observe both sides; move the first element of the left part to the end of the right part (across two treaps;
+    `ms2`), observe; merge back, split again, observe"""
     ops = [["F", MOVE_VALUES[0], prios[0]]]
     for i in range(1, n):
         ops.append(["I", 0, i, MOVE_VALUES[i], prios[i]])
     ops.append(["U", 0, "s", 7, kind] if (kind == 1 and idx % 2) else ["U", 0, "a", 7, kind])
-    ops += [["V", 0, k, 0, k2, pnew], ["S", 0], ["G", 0], ["C", 0]]
+    ops += [["V", 0, k, 0, k2, pnew] + ([ms1] if ms1 else []), ["S", 0], ["G", 0], ["C", 0]]
     cut = idx % (n + 1)
     ops += [["A", 0, cut], ["S", 0], ["S", 1], ["G", 0], ["G", 1]]
-    ops += [["V", 0, 0, 1, n, pnew2], ["S", 0], ["S", 1], ["G", 1], ["C", 1]]
+    ops += [["V", 0, 0, 1, n, pnew2] + ([ms2] if ms2 else []), ["S", 0], ["S", 1], ["G", 1], ["C", 1]]
     ops += [["M", 0, 1], ["S", 0], ["G", 0], ["A", 0, (idx // 2) % (n + 1)], ["S", 0], ["S", 1], ["G", 0], ["G", 1],
             ["M", 0, 1], ["C", 0], ["f", 0], ["l", 0]]
     return ops
 
 
-def exhaustive_move(nmax, full_upto, kinds=(0, 1, 2)):
-    """every priority assignment {0..n-1}^n (ties included) for n <= nmax, so that the removed position is, over the
-    family, every inner node with one or two children, the root, every leaf.  n <= full_upto: every pair (removed
+def exhaustive_move(nmax, full_upto, kinds=(0, 1, 2), alphabet=None, mode="exhaustive-move"):
+    """every priority assignment {0..n-1}^n (ties included; or alphabet^n) for n <= nmax, so that the removed position is,
+    over the family, every inner node with one or two children, the root, every leaf.  n <= full_upto: every pair (removed
     position, insert position); larger n: one pair per assignment, cycling through all pairs.  The node created by the
-    re-insertion gets a priority in 0..n (cycling).  Item kinds cycle."""
+    re-insertion gets a priority in 0..n (cycling; resp. from the alphabet).  Item kinds cycle.  Every other move is a
+    move-and-update (the item is modified between remove_at and insert_at)."""
     import itertools
     cases, idx = [], 0
     for n in range(1, nmax + 1):
         pairs = [(k, k2) for k in range(n) for k2 in range(n)]
-        for f in itertools.product(range(n), repeat=n):
+        newp = list(alphabet) if alphabet is not None else list(range(n + 1))
+        for f in itertools.product(alphabet if alphabet is not None else range(n), repeat=n):
             chosen = pairs if n <= full_upto else [pairs[(idx * 7 + 3) % len(pairs)]]
             for (k, k2) in chosen:
                 idx += 1
                 kind = kinds[idx % len(kinds)]
-                ops = move_ops(n, kind, idx, k, k2, f, (idx // 3) % (n + 1), (idx // 5) % (n + 1))
-                cases.append({"kind": kind, "native": False, "mode": "exhaustive-move", "ops": ops})
+                ops = move_ops(n, kind, idx, k, k2, f, newp[(idx // 3) % len(newp)], newp[(idx // 5) % len(newp)],
+                               move_mods(kind, idx), move_mods(kind, idx // 2))
+                cases.append({"kind": kind, "native": False, "mode": mode, "ops": ops})
     return cases
 
 
@@ -403,20 +524,158 @@ def native_move(nmax, kinds=(0, 1, 2)):
             for k2 in range(n):
                 for kind in kinds:
                     idx += 1
-                    ops = move_ops(n, kind, idx, k, k2, [0] * n, 0, 0)
+                    ops = move_ops(n, kind, idx, k, k2, [0] * n, 0, 0, move_mods(kind, idx // 3), move_mods(kind, idx // 6))
                     cases.append({"kind": kind, "native": True, "mode": "native-move", "ops": ops})
     return cases
 
 
+TAG_MODS = {1: [[["a", 5]], [["s", 9]], [["s", 9], ["a", 1]], [["a", 2], ["s", 4]]],
+            0: [[["a", 5]], [["a", 2], ["a", -7]]],
+            2: [[["a", 5]], [["a", 2], ["a", -7]]]}
+
+
+def hybrid_tagged(nmax, full_upto, kinds=(0, 1, 2)):
+    """An item that still carries a pending tag enters a treap through the REAL insert_at / from_item, for every rank of
+    the new node among the nodes already there.  The n nodes of the treap get injected priorities; the tagged item's node
+    keeps the generator's own draw d (flag `n`: the real insert_at runs; d is known because every node creation of a line
+    draws exactly once).  For every level assignment f in {0..n-1}^n and every rank r, the level l becomes the priority
+      d + 2*(l - r) + 1   (no tie: the levels < r are below d, the others above;  r = 0..n)   or
+      d + (l - r)         (the level r TIES with d;  r = 0..n-1),
+    so over the family the new node is above the root, between any two nodes of its search path, below everything, or
+    equal to any of them.  A modification is pending on the root when the insert descends.  Three ways in (cycling):
+      0  insert_at(k, <fresh item modified by the caller>)
+      1  let mut it = other.remove_at(0); it.modify(..); t.insert_at(k, it)          (move-and-update across treaps)
+      2  split_at(k); Treap::from_item(<modified item>) with the generator's priority; merge; merge
+    then: size, root aggregate, collect, first, last; split at a cut, both aggregates, a tag on both roots, merge, observe;
+    remove_at of the inserted position shows the complete item (its tag was pushed away when it got children)."""
+    import itertools
+    cases, idx = [], 0
+    for n in range(1, nmax + 1):
+        for f in itertools.product(range(n), repeat=n):
+            for r in range(n + 1):
+                for tie in (0, 1):
+                    if tie and r == n:
+                        continue
+                    positions = range(n + 1) if n <= full_upto else [(idx * 5 + 1) % (n + 1)]
+                    for k in positions:
+                        idx += 1
+                        kind = kinds[idx % len(kinds)]
+                        way = (idx // 3) % 3
+                        ms = TAG_MODS[kind][(idx // 9) % len(TAG_MODS[kind])]
+                        d = lcg_prios(n + 2)[n + 1 if way == 1 else n]
+                        pr = [min(U32MAX, max(0, d + (l - r) if tie else d + 2 * (l - r) + 1)) for l in f]
+                        ops = [["F", MOVE_VALUES[0], pr[0]]]
+                        for i in range(1, n):
+                            ops.append(["I", 0, i, MOVE_VALUES[i], pr[i]])
+                        ops.append(["U", 0, "s", 7, kind] if (kind == 1 and idx % 2) else ["U", 0, "a", 7, kind])
+                        if way == 0:
+                            ops.append(["I", 0, k, 55, "n", ms])
+                        elif way == 1:
+                            ops += [["F", 55, 5], ["V", 1, 0, 0, k, "n", ms], ["M", 0, 1]]
+                        else:
+                            ops += [["A", 0, k], ["F", 55, "n", ms], ["M", 0, 2], ["M", 1, 0]]
+                        cut = idx % (n + 2)
+                        ops += [["S", 0], ["G", 0], ["C", 0], ["f", 0], ["l", 0],
+                                ["A", 0, cut], ["G", 0], ["G", 1], ["U", 0, "a", 3, kind], ["U", 1, "a", -2, kind], ["M", 0, 1],
+                                ["G", 0], ["C", 0], ["R", 0, min(k, n)], ["G", 0], ["C", 0]]
+                        cases.append({"kind": kind, "native": False, "mode": "hybrid-tagged", "ops": ops})
+    return cases
+
+
+def edge_empty():
+    """boundary priorities next to EMPTY operands: a treap whose root has priority 2^32-1 / 2^32-2 / 0 / 1 / 2^31-1 / 2^31
+    merged with an empty treap on either side, split at 0 / at len and merged back, emptied by remove_at and merged,
+    grown from an empty treap by inserts with one and the same boundary priority; through the Treap wrappers and through
+    the TreapNode building blocks"""
+    cases, idx = [], 0
+    for p in [U32MAX, U32MAX - 1, 0, 1, (1 << 31) - 1, 1 << 31]:
+        obs = [["S", 0], ["G", 0], ["C", 0]]
+        hists = [
+            [["F", 3, p], ["N"], ["M", 0, 1]] + obs,                                   # right operand empty
+            [["D"], ["F", 3, p], ["M", 0, 1]] + obs,                                   # left operand empty
+            [["F", 3, p], ["A", 0, 1], ["S", 1], ["M", 0, 1]] + obs,                   # split at len, merge back
+            [["F", 3, p], ["A", 0, 0], ["S", 0], ["M", 0, 1]] + obs,                   # split at 0, merge back
+            [["F", 3, p], ["I", 0, 1, 4, p], ["R", 0, 1]] + obs + [["R", 0, 0]] + obs + [["N"], ["M", 0, 1]] + obs,
+            [["N"], ["I", 0, 0, 3, p]] + obs + [["I", 0, 1, 4, p]] + obs + [["I", 0, 0, 2, p, [["a", 5]]]] + obs,
+            [["D"], ["N"], ["M", 0, 1]] + obs + [["A", 0, 0], ["M", 1, 0]] + obs,      # merge / split of empty treaps
+            [["F", 1, p], ["I", 0, 1, 2, p], ["I", 0, 2, 3, p], ["U", 0, "a", 10, 0], ["A", 0, 3], ["M", 0, 1]] + obs
+            + [["A", 0, 0], ["M", 0, 1]] + obs + [["V", 0, 2, 0, 2, p], ["V", 0, 0, 0, 0, p, [["a", 1]]]] + obs,
+            [["F", 1, p], ["I", 0, 1, 2, 0], ["I", 0, 0, 0, U32MAX], ["U", 0, "a", 10, 0], ["N"], ["M", 0, 1], ["N"], ["M", 1, 0]] + obs
+            + [["R", 0, 2], ["R", 0, 0]] + obs,
+        ]
+        for h in hists:
+            for nodeapi in (False, True):
+                idx += 1
+                kind = idx % 3
+                ops = [(op[:4] + [kind] if op[0] == "U" else op) for op in h]
+                c = {"kind": kind, "native": False, "mode": "edge-empty", "ops": ops}
+                if nodeapi:
+                    c["nodeapi"] = True
+                cases.append(c)
+    return cases
+
+
+BIG_POS = [(1 << 32) - 1, 1 << 32, (1 << 32) + 1, (1 << 64) - 2, (1 << 64) - 1]
+
+
+def big_positions():
+    """positions beyond every length, up to usize::MAX, on empty and non-empty treaps (both build profiles): split_at keeps
+    everything on the left, insert_at appends, remove_at panics and leaves the sequence as it was"""
+    cases, idx = [], 0
+    for n in (0, 1, 3):
+        for big in BIG_POS:
+            for native in (False, True):
+                idx += 1
+                kind = idx % 3
+                ops = [["N"]] if n == 0 else [["F", 10, 3 * idx % 5]]
+                for i in range(1, n):
+                    ops.append(["I", 0, i, 10 * (i + 1), (7 * i + idx) % 5])
+                ops += [["U", 0, "a", 2, kind], ["A", 0, big], ["S", 0], ["S", 1], ["M", 0, 1], ["I", 0, big, 77, 2], ["C", 0],
+                        ["R", 0, big], ["V", 0, big, 0, 0, 1], ["V", 0, 0, 0, big, 4, [["a", 1]]], ["G", 0], ["C", 0],
+                        ["A", 0, big - 1], ["C", 0], ["C", 1]]
+                cases.append({"kind": kind, "native": native, "mode": "big-pos", "ops": ops})
+    return cases
+
+
+def long_chain(n, kind, mode):
+    """n elements appended with increasing / decreasing / equal / native priorities (a path of depth n to the right, to
+    the left, to the left with ties; a balanced tree), then root modify, split at 1 / mid / n-1 with modifications of the
+    parts, move-and-update of the first element to the end, observe, remove from the middle"""
+    def pr(j):
+        return {"inc": 10 * (j + 1), "dec": 10000000 - 10 * j, "equal": 7}.get(mode, 0)
+    ops = [["F", 0, pr(0)]]
+    for i in range(1, n):
+        ops.append(["I", 0, i, i % 50, pr(i)])
+    mid = n // 2
+    ops += [["U", 0, "a", 5, kind], ["A", 0, 1], ["G", 1], ["S", 1], ["M", 0, 1],
+            ["A", 0, mid], ["U", 1, "s" if kind == 1 else "a", 2, kind], ["G", 0], ["G", 1], ["M", 0, 1],
+            ["A", 0, n - 1], ["G", 0], ["G", 1], ["M", 0, 1],
+            ["V", 0, 0, 0, n - 1, pr(n), [["a", 3]]], ["S", 0], ["G", 0], ["f", 0], ["l", 0], ["R", 0, mid], ["C", 0]]
+    return {"kind": kind, "native": mode == "native", "mode": "chain-" + mode, "ops": ops}
+
+
 def generate(rng, tier):
-    cases = exhaustive_small(4 if tier == "quick" else 5)
-    cases += exhaustive_move(4, 3) if tier == "quick" else exhaustive_move(5, 4)
-    cases += native_move(5 if tier == "quick" else 8)
-    n = 1400 if tier == "quick" else 30000
+    quick = tier == "quick"
+    cases = exhaustive_small(4 if quick else 5)
+    cases += exhaustive_move(4, 3) if quick else exhaustive_move(5, 4)
+    cases += native_move(5 if quick else 8)
+    # items that enter a treap with a pending tag, through the real insert_at, for every rank of the new node
+    cases += hybrid_tagged(3, 2) if quick else hybrid_tagged(4, 3)
+    # boundary priorities: every assignment over {0, 2^32-2, 2^32-1}, and the empty-operand cases
+    edge3 = [0, U32MAX - 1, U32MAX]
+    cases += exhaustive_small(3 if quick else 5, alphabet=edge3, mode="edge-exhaustive")
+    cases += exhaustive_move(3, 2, alphabet=edge3, mode="edge-move") if quick else exhaustive_move(4, 3, alphabet=edge3, mode="edge-move")
+    cases += edge_empty()
+    cases += big_positions()
+    if quick:
+        cases += [long_chain(70, 0, "inc"), long_chain(130, 1, "dec"), long_chain(70, 2, "equal"), long_chain(130, 0, "native")]
+    else:
+        cases += [long_chain(n, kind, mode) for n in (70, 130, 300) for kind in (0, 1, 2) for mode in ("inc", "dec", "equal", "native")]
+    n = 1400 if quick else 30000
     for t in range(n):
         kind = t % 2
         mode = PRIO_MODES[rng.below(len(PRIO_MODES))]
-        if tier == "quick":
+        if quick:
             nops = rng.choice([3, 8, 15, 25, 35, 45])
             maxel = 35
         else:
@@ -424,11 +683,11 @@ def generate(rng, tier):
             maxel = 60
         cases.append(gen_history(rng, nops, kind, mode, maxel))
     # kind 2: the order-sensitive aggregate (own stream of choices: the cases above do not depend on these)
-    cases += exhaustive_hash(4 if tier == "quick" else 5)
+    cases += exhaustive_hash(4 if quick else 5)
     hr = rng.fork("c03-hash")
-    for t in range(260 if tier == "quick" else 8000):
+    for t in range(260 if quick else 8000):
         mode = PRIO_MODES[hr.below(len(PRIO_MODES))]
-        if tier == "quick":
+        if quick:
             nops, maxel = hr.choice([6, 12, 20, 30, 45]), 35
         else:
             nops, maxel = hr.choice([6, 12, 25, 45, 80]), 60
@@ -438,7 +697,9 @@ def generate(rng, tier):
 
 # ----------------------------------------------------------------------------- printing
 def case_prios(c):
-    """priorities consumed by node creation, in order (an insert_at naming a missing treap creates nothing)"""
+    """priorities consumed by node creation, in order (an insert_at naming a missing treap creates nothing).  The j-th
+    creation of a line draws lcg_prios(..)[j] whether or not the field is overwritten afterwards: a node whose
+    priority is `n` (or every node of a native case) keeps that draw."""
     ps, L = [], []
     for op in c["ops"]:
         if op[0] == "F":
@@ -447,25 +708,34 @@ def case_prios(c):
             ps.append(op[4])
         elif op[0] == "V" and op[1] < len(L) and op[3] < len(L) and op[2] < len(L[op[1]]):
             ps.append(op[5])     # the re-insertion creates a node; nothing is created when remove_at panics
-        py_step(L, op)
-    if c.get("native"):
-        return lcg_prios(len(ps))
-    return ps
+        py_step(L, op, c["kind"])
+    draws = lcg_prios(len(ps))
+    nat_ = c.get("native")
+    return [draws[j] if (nat_ or p == "n") else p for j, p in enumerate(ps)]
 
 
 def harness_line(c):
     toks = ["h", str(c["kind"])]
     nat = c.get("native")
+    nodeapi = c.get("nodeapi")
+
+    def ms(op):
+        m = op_mods(op)
+        return (":" + ",".join("%s%d" % (t, v) for t, v in m)) if m else ""
+
     for op in c["ops"]:
         k = op[0]
         if k == "F":
-            toks.append("F:%d:%s" % (op[1], "n" if nat else op[2]))
+            toks.append("F:%d:%s%s" % (op[1], "n" if nat else op[2], ms(op)))
         elif k == "I":
-            toks.append("I:%d:%d:%d:%s" % (op[1], op[2], op[3], "n" if nat else op[4]))
+            toks.append("I:%d:%d:%d:%s%s" % (op[1], op[2], op[3], "n" if nat else op[4], ms(op)))
         elif k == "U":
             toks.append("U:%d:%s:%d" % (op[1], op[2], op[3]))
         elif k == "V":
-            toks.append("V:%d:%d:%d:%d:%s" % (op[1], op[2], op[3], op[4], "n" if nat else op[5]))
+            toks.append("V:%d:%d:%d:%d:%s%s" % (op[1], op[2], op[3], op[4], "n" if nat else op[5], ms(op)))
+        elif nodeapi and k in ("M", "A", "B", "C"):
+            # the same operation through t.root + TreapNode::{merge, split_at, split_by, collect_into}
+            toks.append(":".join([k + "n"] + [str(x) for x in op[1:]]))
         else:
             toks.append(":".join([k] + [str(x) for x in op[1:]]))
     return " ".join(toks)
@@ -479,12 +749,16 @@ def nat(v):
     return "%d%%nat" % v
 
 
+def coq_mods(op):
+    return "[%s]" % "; ".join("%s %s" % ("MSet" if t == "s" else "MAdd", z(v)) for t, v in op_mods(op))
+
+
 def coq_op(op):
     k = op[0]
-    if k == "N":
+    if k in ("N", "D"):
         return "CNew"
     if k == "F":
-        return "CFrom %s" % z(op[1])
+        return "CFrom %s %s" % (z(op[1]), coq_mods(op))
     if k == "M":
         return "CMerge %s %s" % (nat(op[1]), nat(op[2]))
     if k == "A":
@@ -492,11 +766,11 @@ def coq_op(op):
     if k == "B":
         return "CSplitBy %s %s" % (nat(op[1]), z(op[2]))
     if k == "I":
-        return "CInsert %s %s %s" % (nat(op[1]), z(op[2]), z(op[3]))
+        return "CInsert %s %s %s %s" % (nat(op[1]), z(op[2]), z(op[3]), coq_mods(op))
     if k == "R":
         return "CRemove %s %s" % (nat(op[1]), z(op[2]))
     if k == "V":
-        return "CMove %s %s %s %s" % (nat(op[1]), z(op[2]), nat(op[3]), z(op[4]))
+        return "CMove %s %s %s %s %s" % (nat(op[1]), z(op[2]), nat(op[3]), z(op[4]), coq_mods(op))
     if k == "U":
         return "CMod %s (%s %s)" % (nat(op[1]), "MSet" if op[2] == "s" else "MAdd", z(op[3]))
     return "%s %s" % ({"f": "CFirst", "l": "CLast", "C": "CCollect", "S": "CSize", "G": "CAgg"}[k], nat(op[1]))
@@ -509,6 +783,10 @@ def coq_out(tok):
         return "OInvalid"
     if tok == "P":
         return "OPanic"
+    if tok.startswith("!"):
+        # an internal consistency check of the executor failed (`!is_empty`: is_empty() disagrees with size() / collect()
+        # / root(); `!collect_into`: collect_into touched what the vector already held): no model output equals this
+        return "OInvalid"
     tag, _, val = tok.partition(":")
     if tag == "e":
         return "OElem None" if val == "none" else "OElem (Some %s)" % z(int(val))
@@ -550,8 +828,10 @@ def coq_term(c, obs, profile):
 
 
 def nontrivial(c, obs):
+    """a root modification followed by a structural operation and then an observation; or an item with a pending tag
+    entering a non-empty treap (insert_at, move-and-update) followed by an observation"""
     stage = 0
-    sizes_unknown = True
+    L = []
     for op in c["ops"]:
         if stage == 0 and op[0] == "U":
             stage = 1
@@ -559,6 +839,11 @@ def nontrivial(c, obs):
             stage = 2
         elif stage == 2 and op[0] in ("C", "G", "f", "l", "R", "V"):
             return True
+        if stage < 2 and op_mods(op) and op[0] in ("I", "V"):
+            j = op[1] if op[0] == "I" else op[3]
+            if j < len(L) and len(L[j]) >= 1:
+                stage = 2
+        py_step(L, op, c["kind"])
     return False
 
 
@@ -581,6 +866,12 @@ def shrink(c):
             out.append(dict(c, ops=ops[:a] + ops[a + q:]))
     for i in range(n - 1, -1, -1):
         out.append(dict(c, ops=ops[:i] + ops[i + 1:]))
+    # once the history is short: the Treap wrappers instead of the building blocks, an item handed over unmodified
+    if c.get("nodeapi"):
+        out.append({k: v for k, v in c.items() if k != "nodeapi"})
+    for i in range(n):
+        if op_mods(ops[i]):
+            out.append(dict(c, ops=ops[:i] + [ops[i][:MODS_AT[ops[i][0]]]] + ops[i + 1:]))
     return out
 
 
@@ -593,19 +884,22 @@ MANIFEST = {
             "split_by, push/update discipline, collect, first, last, insert_at, remove_at, root modification, a multi-treap machine), "
             "generic over a lawful item interface (elem/agg/size/Pending, modifications need not commute) and over EVERY priority "
             "assignment, ties included: Rep invariant; c03_merge_rep (concatenation), c03_split_at_rep (firstn/skipn for every k, k >= len "
-            "as len), c03_split_by_rep (take_while/drop_while for prefix-monotone predicates), c03_insert_at, c03_remove_at (returns the "
+            "as len), c03_split_by_rep (take_while/drop_while for prefix-monotone predicates), c03_insert_at (for every Detached item: one element, ANY pending tag - "
+            "the tag of the inserted item never reaches its new neighbours), c03_remove_at (returns the "
             "k-th element; out of range = panic, sequence unchanged), c03_first_last_collect_size (+ root aggregate = fold of exactly that "
             "subsequence), c03_modify_root (a root modification reaches exactly that treap's elements, once, in attachment order), "
-            "c03_history (outputs of any history - including move = remove_at then insert_at of the returned item object - = outputs of the list-of-lists "
-            "specification, and every item handed out by remove_at is Fresh, for every priority stream), lawfulness of "
+            "c03_history (outputs of any history - including from_item / insert_at of items that carry a pending tag and move = remove_at, the caller's modifications of the "
+            "returned item object, insert_at of that object - = outputs of the list-of-lists "
+            "specification, which inserts the element of the modified item, and every item handed out by remove_at is Fresh, for every priority stream), lawfulness of "
             "the ItemSized-like item (c03_isz_lawful), of an assign-vs-add item (c03_iaa_lawful) and of a positional-hash item whose "
             "aggregate is order-sensitive (c03_ihash_lawful: exchanged children change it), c03_model_check_spec_check (agreement with the model implies the "
             "specification on every correspondence case). The model is tied to the code on every run: histories are run on the real Treap "
-            "with injected (public priority field) or native priorities and Coq proves model = implementation and implementation |= list "
+            "(wrappers and TreapNode building blocks) with injected (public priority field, boundary values 0 / 2^32-1 included), native or hybrid priorities and Coq proves model = implementation and implementation |= list "
             "specification for every case.",
     "level_note": "Trusted: Coq kernel + vm_compute; the Rust executor and the Python case printer; Box/Option ownership modelled "
                   "functionally; usize as Z; with injected priorities insert_at is replayed as its body (split_at, from_item, merge, merge) "
-                  "because the node is created inside insert_at - the real insert_at runs in the native-priority cases; the "
-                  "correspondence is sampled (histories up to 80 ops, all priority assignments up to 5 nodes).",
+                  "because the node is created inside insert_at - the real insert_at runs in the native-priority cases and, steered through every rank "
+                  "of the new node (ties included, n <= 3/4), in the hybrid cases; the "
+                  "correspondence is sampled (histories up to 80 ops, all priority assignments up to 5 nodes, paths up to depth 300).",
     "technique": "Coq proof over Gallina model + vm_compute correspondence batches against the Rust crate",
 }
